@@ -75,11 +75,27 @@ func (e *c08Error) Error() string { return fmt.Sprintf("c08-err-%d", e.id) }
 type c08World struct {
 	readers map[int]*schema.StreamReader[int]
 	writers map[int]*schema.StreamWriter[int]
+	wclosed map[int]bool
 	convN   int
 }
 
 func c08NewWorld() *c08World {
-	return &c08World{readers: map[int]*schema.StreamReader[int]{}, writers: map[int]*schema.StreamWriter[int]{}}
+	return &c08World{readers: map[int]*schema.StreamReader[int]{}, writers: map[int]*schema.StreamWriter[int]{}, wclosed: map[int]bool{}}
+}
+
+// cleanup releases whatever a case that ended early still holds (so that forwarding goroutines
+// end): every open writer and every held reader is closed; nothing is checked.
+func (w *c08World) cleanup() {
+	for p, sw := range w.writers {
+		if !w.wclosed[p] {
+			sw := sw
+			vh.Safely(func() { vh.WithTimeout(2*time.Second, sw.Close) })
+		}
+	}
+	for _, sr := range w.readers {
+		sr := sr
+		vh.Safely(func() { vh.WithTimeout(2*time.Second, sr.Close) })
+	}
 }
 
 func c08ConvFn(op c08Op) func(int) (int, error) {
@@ -187,6 +203,12 @@ func (w *c08World) bind(op *c08Op, made []*schema.StreamReader[int], created []i
 			delete(w.readers, op.R)
 		}
 	case "pipe", "arr":
+	case "close":
+		delete(w.readers, op.R)
+		return nil
+	case "closeSend":
+		w.wclosed[op.P] = true
+		return nil
 	default:
 		return nil
 	}
@@ -269,6 +291,8 @@ type c08Seq struct {
 	stats map[string]int
 	bad   bool
 	enc   []byte // JSON of c.Ops without the closing bracket
+	sigs  map[int]map[string]bool // per reader: the source paths its values come along
+	inconclusive bool
 }
 
 // step executes op on the implementation, appends it (with the observation) to the trace and
@@ -311,6 +335,13 @@ func (s *c08Seq) step(op c08Op) (bool, error) {
 		return false, err
 	}
 	if !rep.Ok {
+		if strings.HasPrefix(rep.Why, "inconclusive:") {
+			// the same values reach this reader along so many paths that the oracle does not keep
+			// every explanation of the trace: stop the case (tear the tree down without the model)
+			s.ctx.Res.Dist("inconclusive")
+			s.inconclusive = true
+			return false, nil
+		}
 		if strings.HasPrefix(rep.Why, "mismatch:") {
 			s.ctx.Res.Disagree(vh.Disagreement{Signature: fmt.Sprintf("C08:%s:kind=%s", strings.TrimPrefix(rep.Why, "mismatch:"), kind),
 				What:  fmt.Sprintf("op #%d %s on a %s: implementation returned %v, the model allows %s", rep.At, op.K, kind, c08Obs(op), c08AllowedFor(op, rep)),
@@ -323,6 +354,7 @@ func (s *c08Seq) step(op c08Op) (bool, error) {
 	if err := s.w.bind(&op, made, rep.Created); err != nil {
 		return false, err
 	}
+	s.track(&op, rep.Created)
 	s.st = rep
 	return true, nil
 }
@@ -335,6 +367,55 @@ func c08AllowedFor(op c08Op, rep *c08Reply) string {
 		return "closed=true only (every reader derived from this pipe is closed)"
 	}
 	return c08Allowed(rep)
+}
+
+// track keeps, per reader, the set of source paths its values come along (pipe or array id plus the
+// converts passed); two readers with a common path deliver equal values.
+func (s *c08Seq) track(op *c08Op, created []int) {
+	switch op.K {
+	case "pipe":
+		s.sigs[created[0]] = map[string]bool{fmt.Sprintf("p%d", created[0]): true}
+	case "arr":
+		s.sigs[created[0]] = map[string]bool{fmt.Sprintf("a%d", created[0]): true}
+	case "conv":
+		m := map[string]bool{}
+		for k := range s.sigs[op.R] {
+			m[fmt.Sprintf("%s/v%d", k, op.Add)] = true
+		}
+		s.sigs[created[0]] = m
+	case "copy":
+		for _, id := range created {
+			if id != op.R {
+				m := map[string]bool{}
+				for k := range s.sigs[op.R] {
+					m[k] = true
+				}
+				s.sigs[id] = m
+			}
+		}
+	case "merge":
+		if len(op.Rs) < 2 {
+			return
+		}
+		m := map[string]bool{}
+		for _, r := range op.Rs {
+			for k := range s.sigs[r] {
+				m[k] = true
+			}
+		}
+		s.sigs[created[0]] = m
+	}
+}
+
+func (s *c08Seq) overlaps(a int, chosen []int) bool {
+	for _, b := range chosen {
+		for k := range s.sigs[a] {
+			if s.sigs[b][k] {
+				return true
+			}
+		}
+	}
+	return false
 }
 
 func c08Allowed(rep *c08Reply) string {
@@ -419,8 +500,23 @@ func (s *c08Seq) genConstructor() (c08Op, bool) {
 		}
 		perm := r.Perm(len(rs))
 		var ids []int
-		for _, i := range perm[:k] {
-			ids = append(ids, rs[i][0])
+		// mostly merge readers whose values are distinct; now and then (15%) also readers that
+		// deliver the same values (copies of one stream), which the oracle explains by keeping
+		// several candidate states
+		dupOK := r.Chance(15)
+		for _, i := range perm {
+			if len(ids) == k {
+				break
+			}
+			if dupOK || !s.overlaps(rs[i][0], ids) {
+				ids = append(ids, rs[i][0])
+			}
+		}
+		if len(ids) < 2 && k >= 2 {
+			return c08Op{K: "pipe", Cap: r.Intn(5)}, true
+		}
+		if dupOK {
+			s.stats["merge-dup"]++
 		}
 		return c08Op{K: "merge", Rs: ids}, true
 	}
@@ -565,7 +661,7 @@ func (s *c08Seq) writerState(p int) []int {
 
 func c08NewSeq(ctx *vh.Ctx, mode string) *c08Seq {
 	return &c08Seq{ctx: ctx, w: c08NewWorld(), c: &c08Case{Mode: mode, Ops: []c08Op{}}, seq: map[int]int{}, stats: map[string]int{},
-		st: &c08Reply{Ok: true}}
+		st: &c08Reply{Ok: true}, sigs: map[int]map[string]bool{}}
 }
 
 func c08RunSeq(ctx *vh.Ctx) error {
@@ -619,6 +715,9 @@ func c08RunSeq(ctx *vh.Ctx) error {
 }
 
 func (s *c08Seq) finish(err error) error {
+	if s.bad || s.inconclusive || err != nil {
+		s.w.cleanup()
+	}
 	if err != nil {
 		return err
 	}
@@ -929,6 +1028,10 @@ func c08RunConc(ctx *vh.Ctx, replay *c08Case) error {
 		return err
 	}
 	if !rep.Ok {
+		if strings.HasPrefix(rep.Why, "inconclusive:") {
+			ctx.Res.Dist("inconclusive")
+			return nil
+		}
 		if !strings.HasPrefix(rep.Why, "mismatch:") {
 			return fmt.Errorf("C08 harness/model error in concurrent validation at op %d: %s", rep.At, rep.Why)
 		}
